@@ -143,14 +143,15 @@ def revert_controls(pid, repo):
                 if os.path.isfile(src) and (fn.endswith((".c", ".h", ".am", ".ac", ".in")) or "/" not in fn):
                     os.makedirs(os.path.dirname(os.path.join(tmp, fn)) or tmp, exist_ok=True)
                     shutil.copy(src, os.path.join(tmp, fn))
-            r = subprocess.run(["patch", "-R", "-p1", "--batch", "--silent", "-d", tmp], input=diff.stdout, capture_output=True, text=True)
+            # strict reverse application (no fuzz, no "unreversed patch" guessing): a fix that later commits built upon is skipped
+            r = subprocess.run(["git", "apply", "-R", "--whitespace=nowarn", "-"], input=diff.stdout, capture_output=True, text=True, cwd=tmp)
             if r.returncode != 0:
                 entry["result"] = "skipped: the fix can no longer be reverted on the current tree"
                 out.append(entry)
                 continue
             try:
                 o = run_property(pid, "quick", tmp, 0, fixtures=False)
-                got = {v.rule for v in o["violations"]} | {v.rule for v, k in o["known"]}
+                got = {v.rule for v in o["violations"]}          # listed known findings do not count: the revert must add a report
                 entry["reported_rules"] = sorted(got)
                 entry["result"] = "detected" if (got & want) else "NOT DETECTED"
             except AnalysisBroken as ex:
